@@ -99,6 +99,7 @@ func (e *C14) one(ctx *core.Ctx) {
 	}
 	// stale previous status values must be overwritten
 	eds.Status.Current, eds.Status.Ready, eds.Status.Desired, eds.Status.UpToDate = int32(r.Intn(9)), int32(r.Intn(9)), int32(r.Intn(9)), int32(r.Intn(9))
+	eds.Status.Reason = []v1.ExtendedDaemonSetStatusReason{"", "", "CrashLoopBackOff", "ImagePullBackOff"}[r.Intn(4)]
 	eds.Status.State = []v1.ExtendedDaemonSetStatusState{"", v1.ExtendedDaemonSetStatusStateCanary, v1.ExtendedDaemonSetStatusStateRunning, v1.ExtendedDaemonSetStatusStateCanaryFailed}[r.Intn(4)]
 	s.Inject(eds)
 	for _, rs := range all {
